@@ -10,6 +10,9 @@ import GoderiveModel.U.Wire
 import GoderiveModel.U.Typing
 import GoderiveModel.S.Equal
 import GoderiveModel.Spec.StructEq
+import GoderiveModel.S.Compare
+import GoderiveModel.S.Hash
+import GoderiveModel.Spec.Order
 
 open Goderive
 
@@ -34,6 +37,16 @@ def showRes (r : Res Bool) : String :=
   | .ok false => "false"
   | .panic => "panic"
 
+def showResI (r : Res Int) : String :=
+  match r with
+  | .ok n => toString n
+  | .panic => "panic"
+
+def showResU (r : Res UInt64) : String :=
+  match r with
+  | .ok n => toString n
+  | .panic => "panic"
+
 def lookupTy (s : DState) (e : SExp) : Option Ty :=
   match e with
   | .atom a => match s.tys.lookup a with
@@ -47,29 +60,37 @@ def argsConsistent (args : List SExp) : Bool :=
 def runOp (s : DState) (name : String) (args : List SExp) : String :=
   let env := s.env
   if !argsConsistent args then "ill-formed-heap" else
-  match name, args with
-  | "equal", [t, x, y] =>
-    match lookupTy s t, parseVal x, parseVal y with
-    | some T, some x, some y =>
-      if !(hasType env T x && hasType env T y) then "ill-typed"
-      else
-        let m := Equal.top env T x y
-        let sp := Spec.structEq env T x y
-        s!"model={showRes m} spec={sp}"
-    | _, _, _ => "bad-op"
-  | "equalc", [t, x, y] =>     -- one-argument curried form: same body
-    match lookupTy s t, parseVal x, parseVal y with
-    | some T, some x, some y =>
-      if !(hasType env T x && hasType env T y) then "ill-typed"
-      else s!"model={showRes (Equal.top env T x y)} spec={Spec.structEq env T x y}"
-    | _, _, _ => "bad-op"
-  | "equalf", [t, x, y] =>     -- the same component compared as a field
-    match lookupTy s t, parseVal x, parseVal y with
-    | some T, some x, some y =>
-      if !(hasType env T x && hasType env T y) then "ill-typed"
-      else s!"model={showRes (Equal.field env T x y)} spec={Spec.structEq env T x y}"
-    | _, _, _ => "bad-op"
-  | _, _ => "bad-op"
+  match args with
+  | t :: vs =>
+    match lookupTy s t, vs.mapM parseVal with
+    | some T, some vals =>
+      if !(vals.all (hasType env T)) then "ill-typed" else
+      match name, vals with
+      | "equal", [x, y] => s!"model={showRes (Equal.top env T x y)} spec={Spec.structEq env T x y}"
+      | "equalc", [x, y] => s!"model={showRes (Equal.top env T x y)} spec={Spec.structEq env T x y}"
+      | "equalf", [x, y] => s!"model={showRes (Equal.field env T x y)} spec={Spec.structEq env T x y}"
+      | "compare", [x, y] => s!"model={showResI (Compare.top env T x y)} spec={Spec.cmpVal x y}"
+      | "comparec", [x, y] => s!"model={showResI (Compare.top env T x y)} spec={Spec.cmpVal x y}"
+      | "comparef", [x, y] => s!"model={showResI (Compare.field env T x y)} spec={Spec.cmpVal x y}"
+      -- consistency of Compare with Equal: `cmp == 0` iff Equal (the emitted functions on the Go side)
+      | "cmpeq", [x, y] =>
+        let c := Compare.top env T x y
+        let e := Equal.top env T x y
+        let m := match c, e with
+          | .ok c, .ok e => toString ((c == 0) == e)
+          | _, _ => "panic"
+        s!"model={m} spec=true"
+      | "hash", [x] => s!"model={showResU (Hash.top env T x)}"
+      | "hashf", [x] => s!"model={showResU (Hash.field env T x)}"
+      -- Equal ⇒ same hash, on the emitted functions / on the models
+      | "hasheq", [x, y] =>
+        let m := match Equal.top env T x y, Hash.top env T x, Hash.top env T y with
+          | .ok e, .ok hx, .ok hy => toString (!e || hx == hy)
+          | _, _, _ => "panic"
+        s!"model={m} spec=true"
+      | _, _ => "bad-op"
+    | _, _ => "bad-op"
+  | _ => "bad-op"
 
 def step (s : DState) (line : String) : DState × Option String :=
   match SExp.parseAll (SExp.tokenize line) with
@@ -78,7 +99,8 @@ def step (s : DState) (line : String) : DState × Option String :=
   | some (.atom "decl" :: .atom flags :: [t]) =>
     match parseTy t with
     | some T =>
-      let d : Decl := { under := T, external := flags.contains 'e', priv := flags.contains 'p' }
+      let mask := (flags.toList.dropWhile (· != 'm')).drop 1 |>.takeWhile (fun c => c == '0' || c == '1') |>.map (· == '1')
+      let d : Decl := { under := T, external := flags.contains 'e', priv := flags.contains 'p', privMask := mask }
       ({ s with decls := fixFlags (s.decls.push d) }, none)
     | none => (s, some "bad-decl")
   | some (.atom "ty" :: .atom n :: [t]) =>
